@@ -497,16 +497,29 @@ def k2_cell_values(ctx):
 
 def k3_cli_shape(ctx):
     from sharepoint2text import cli
-    from sharepoint2text.parsing.extractors.data_types import PlainTextContent, XlsxContent, XlsxSheet
+    import base64
+    from sharepoint2text.parsing.extractors.data_types import (PdfContent, PdfImage, PdfMetadata, PdfPage,
+                                                                PlainTextContent, XlsxContent, XlsxSheet)
     s = _ser()
     n = 1 + ctx.choice("n_results", 3)
     binary = ctx.flag("binary")
     unit = ctx.flag("json_unit")
     results = []
+    payloads = []
     for i in range(n):
-        if ctx.flag(f"sheet_result{i}"):
+        kind = ctx.choice(f"result{i}_kind", 3)
+        if kind == 1:
             results.append(XlsxContent(sheets=[XlsxSheet(name=f"S{i}", data=[["a", 1]], text="a 1"),
                                                XlsxSheet(name="T", data=[], text="")]))
+        elif kind == 2:
+            # a result whose units carry a binary payload
+            raw = b"\x89PNG\r\n\x1a\n payload %d " % i + bytes(range(40, 60))
+            payloads.append(base64.b64encode(raw).decode())
+            img = PdfImage(index=1, name="im", caption="", width=2, height=3, color_space="/DeviceRGB",
+                           bits_per_component=8, filter="", data=raw, format="png", content_type="image/png",
+                           unit_name=1)
+            results.append(PdfContent(pages=[PdfPage(text=f"page {i}", images=[img], tables=[])],
+                                      metadata=PdfMetadata(total_pages=1)))
         else:
             results.append(PlainTextContent(content=f"text {i}"))
     if unit:
@@ -521,7 +534,11 @@ def k3_cli_shape(ctx):
         exp = [exp]
     ctx.require(got == exp, "cli-json-payload-shape", n=n, unit=unit)
     ctx.require(isinstance(got, dict) == (n == 1 and not unit), "cli-object-vs-array", n=n, unit=unit)
-    _dumps(got)
+    text = _dumps(got)
+    # binary payloads are in the output exactly when asked for (independent of serialize_extraction's own flag)
+    if isinstance(text, str):
+        for b64 in payloads:
+            ctx.require((b64 in text) == bool(binary), "cli-binary-payload-presence", n=n, unit=unit, binary=binary)
 
 
 def _targets():
@@ -555,7 +572,7 @@ KERNELS = [
            k3_cli_shape, targets=lambda: [__import__("sharepoint2text.cli", fromlist=["x"])._serialize_results,
                                           __import__("sharepoint2text.cli", fromlist=["x"])._serialize_unit_results],
            strength="structure", core=False, perturb=["expect_always_array"],
-           choices=["1..3 results", "result kind", "--binary", "--json-unit"]),
+           choices=["1..3 results", "result kind (plain text, sheets, pages with an image payload)", "--binary", "--json-unit"]),
 ]
 
 META = {
